@@ -63,8 +63,14 @@ def word_for_index(rng, a, i, spread=True):
 
 
 def rejected_word(rng, a):
+    """a raw word the unbiased draw must reject; biased to the exact threshold (the first rejected value) and to 2^32-1"""
     if a & (a - 1) == 0:
         return None
+    r = rng.random()
+    if r < 0.4:
+        return discard(a)
+    if r < 0.5:
+        return W - 1
     return rng.randrange(discard(a), W)
 
 
@@ -224,6 +230,35 @@ def canon_password(ctx):
     return canon
 
 
+def float_decision_band(r, budget):
+    """True iff the pre-flight refusal decision lies within the float32 resolution of SuccessProbability().
+    The code computes sp = 2^(float32 entropy - float32 entropy'); each entropy carries an absolute error of up to one float32
+    ulp at its magnitude, the result one more rounding; the decision (1-sp)^T <= limit is float-decided when it flips
+    inside that band.  Such cases are counted as borderline-skipped, never compared."""
+    T, fn, fd = budget
+    try:
+        p = r.success_probability()
+    except Exception:
+        return False
+    if p is None or p <= 0 or T < 1 or r.length < 1:
+        return False
+    a = len(r.allowed())
+    H = r.length * math.log2(a) if a > 1 else 1.0
+    eps = float(p) * (2 * ulp32(max(H, 1.0)) * math.log(2) + 2.0 ** -23) * 2
+    q = float(1 - p)
+    lim = fn / fd
+
+    def dec(x):
+        if x <= 0:
+            return True
+        return T * math.log(x) <= math.log(lim) if lim > 0 else False
+    return dec(max(q - eps, 0.0)) != dec(min(q + eps, 1.0))
+
+
+def decision_differs(a, b):
+    return (a.startswith("err failrate") != b.startswith("err failrate"))
+
+
 def compare_passwords(ctx, family, cases):
     """cases: list of (line, meta). Runs both sides; entropy compared through the exact count."""
     lines = ["%s%d %s" % (family[0], i, c[0]) for i, c in enumerate(cases)]
@@ -248,6 +283,13 @@ def compare_passwords(ctx, family, cases):
             if ok and (ea is not None or eb is not None):
                 ok = ea is not None and eb is not None and ea.startswith("F:") and \
                     entropy_close(ea[2:], expected_entropy(eb), extra_ulps=c[1].get("ent_extra_ulps", 0))
+        if not ok and a is not None and b is not None and decision_differs(a, b) and "_recipe" in c[1] \
+                and float_decision_band(c[1]["_recipe"], c[1]["budget"]):
+            # exact (model) and float32 (code) pre-flight decisions may differ inside the float resolution of SuccessProbability()
+            ctx.count("borderline_skipped")
+            fam["borderline_skipped"] = fam.get("borderline_skipped", 0) + 1
+            out.append((c[1], a, None))
+            continue
         if not ok:
             fam["mismatches"] += 1
             ctx.mismatches.append({"family": family, "case": lines[i], "impl": a, "model": b, "meta": c[1]})
@@ -282,11 +324,42 @@ def parse_password(res):
     return d
 
 
+def resplit(rng, r):
+    """the same recipe with its custom required characters divided differently among the RequireSets (same concatenation,
+    same every other field): a different recipe, run right after the original in the same process, so that anything the
+    library remembers between calls under a key that does not distinguish the two shows up"""
+    sets = [x for x in r.require_sets if x]
+    joined = "".join(sets)
+    if len(joined) < 2:
+        return None
+    for _ in range(8):
+        k = rng.randrange(1, min(len(joined), 4) + 1)
+        cuts = sorted(rng.sample(range(1, len(joined)), k - 1)) if k > 1 else []
+        parts = [joined[a:b] for a, b in zip([0] + cuts, cuts + [len(joined)])]
+        if parts != sets:
+            return Recipe(r.length, r.allow, r.require, r.exclude, r.allow_chars, parts, r.exclude_chars)
+    return None
+
+
+def with_resplits(rng, recs):
+    out = []
+    for r in recs:
+        out.append(r)
+        if r.require_sets and rng.random() < 0.5:
+            v = resplit(rng, r)
+            if v is not None:
+                out.append(v)
+                if rng.random() < 0.5:
+                    out.append(r)
+    return out
+
+
 def run_chargen_family(ctx, nrec, budgets=None, want=3, recipes=None):
     """generate (recipe, budget, tape) cases, run both sides, return [(meta, impl, model)]"""
     rng = ctx.rng
     cases = []
     recs = recipes if recipes is not None else [gen_recipe(rng) for _ in range(nrec)]
+    recs = with_resplits(rng, recs)
     for r in recs:
         b = rng.choice(budgets or BUDGETS)
         for words, feat in make_tapes(rng, r, b, want=want):
